@@ -87,7 +87,7 @@ class C01Machine(TraceMachine):
             self.state.close()
             self.state = None
 
-    @initialize(pool=_pool(), state=st.booleans())
+    @initialize(pool=_pool(), state=st.sampled_from([False, True, True]))
     @traced
     def init(self, pool, state=False):
         if state and self.state is None:
